@@ -1,12 +1,12 @@
 package checks
 
 import (
-	"go/printer"
 	"fmt"
-	"os"
 	"go/ast"
+	"go/printer"
 	"go/token"
 	"go/types"
+	"os"
 	"sort"
 	"strings"
 
